@@ -28,6 +28,15 @@ def skipZeros : List Nat → Bool → List Nat × Bool
   | 48 :: rest, _ => skipZeros rest true
   | l, seen => (l, seen)
 
+/-- after the sign and the base prefix: skip leading zeros, parse the significant digits -/
+def scanTail (neg : Bool) (pre : Option (Nat × List Nat)) : Option (Bool × Nat) :=
+  match pre with
+  | none => none
+  | some (base, s2) =>
+    match scanDigits base (skipZeros s2 false).1 0 (skipZeros s2 false).2 with
+    | some v => some (neg, v)
+    | none => none
+
 /-- `scan_uint64`: (negative?, magnitude) -/
 def scanUint64 (s : List Nat) : Option (Bool × Nat) :=
   if s.length > scanMaxLen then none
@@ -48,13 +57,7 @@ def scanUint64 (s : List Nat) : Option (Bool × Nat) :=
             if base < 2 || base > 36 then none else some (base, rest)
           else some (10, s1)
         | _ => some (10, s1)
-      match pre with
-      | none => none
-      | some (base, s2) =>
-        let (s3, seen) := skipZeros s2 false
-        match scanDigits base s3 0 seen with
-        | some v => some (neg, v)
-        | none => none
+      scanTail neg pre
 
 /-- `janet_scan_int64` -/
 def scanInt64 (s : List Nat) : Option Int :=
